@@ -128,6 +128,7 @@ fn alphabet(n: usize, tier: Tier) -> Vec<Dev> {
             }));
         }
     }
+    d.extend(crate::devs::rich_generic_devs(true));
     d.extend(crate::devs::syntax_devs(true, false, true, false));
     d
 }
@@ -196,6 +197,7 @@ pub fn render(spec: &EnumSpec) -> String {
             }
         }
     }
+    o.push_str(&format!("type EC = {}{};\n", spec.name, spec.generics_inst()));
     o.push_str("pub fn run(ctx: &mut vf_core::Ctx) {\n    use strum::AsStaticRef;\n    let mut obs: Vec<(usize, &'static str, Result<String, String>)> = Vec::new();\n");
     for (i, v) in spec.variants.iter().enumerate() {
         if v.disabled {
@@ -206,14 +208,14 @@ pub fn render(spec: &EnumSpec) -> String {
         o.push_str(&format!("    obs.push(({i}, \"format!\", vf_core::guard(|| format!(\"{{}}\", {e}))));\n", i = i, e = e));
         o.push_str(&format!("    obs.push(({i}, \"as_ref\", vf_core::guard(|| AsRef::<str>::as_ref(&{e}).to_string())));\n", i = i, e = e));
         o.push_str(&format!("    obs.push(({i}, \"as_static\", vf_core::guard(|| AsStaticRef::<str>::as_static(&{e}).to_string())));\n", i = i, e = e));
-        o.push_str(&format!("    obs.push(({i}, \"From<E>\", vf_core::guard(|| <&'static str as From<E>>::from({e}).to_string())));\n", i = i, e = e));
-        o.push_str(&format!("    obs.push(({i}, \"From<&E>\", vf_core::guard(|| <&'static str as From<&E>>::from(&{e}).to_string())));\n", i = i, e = e));
+        o.push_str(&format!("    obs.push(({i}, \"From<E>\", vf_core::guard(|| <&'static str as From<EC>>::from({e}).to_string())));\n", i = i, e = e));
+        o.push_str(&format!("    obs.push(({i}, \"From<&E>\", vf_core::guard(|| <&'static str as From<&EC>>::from(&{e}).to_string())));\n", i = i, e = e));
         o.push_str(&format!("    obs.push(({i}, \"ToString(twin)\", vf_core::guard(|| ToString::to_string(&{w}))));\n", i = i, w = w));
         if spec.const_into_str {
             o.push_str(&format!("    obs.push(({i}, \"const into_str\", Ok(CIS_{i}.to_string())));\n", i = i));
         }
     }
-    o.push_str("    let names: Vec<String> = <E as strum::VariantNames>::VARIANTS.iter().map(|s| s.to_string()).collect();\n");
+    o.push_str("    let names: Vec<String> = <EC as strum::VariantNames>::VARIANTS.iter().map(|s| s.to_string()).collect();\n");
     o.push_str("    vf_core::props::c03::check(ctx, obs, names);\n}\n");
     o
 }
